@@ -234,7 +234,7 @@ def run_impl(wd, case, refmode, perturb=None):
                            use_supplementary=o["use_supp"],
                            supplementary_distance_threshold=case.get("threshold", 100000)) as rsr:
             rs = rsr.read(CHROM, variants, None if sample is None else sm_name(case, sample), reference)
-            out = sorted((key.get((r.source_id, int(r.name[1:])), 100000 + int(r.name[1:])),
+            out = sorted((key.get((r.source_id, int(r.name[1:])), 9000 + int(r.name[1:])),
                           [(v.position, v.allele, v.quality) for v in r]) for r in rs)
     except AssertionError:
         out = Err(0)
@@ -253,7 +253,25 @@ def run_impl(wd, case, refmode, perturb=None):
 
 
 # ------------------------------------------------------------------------------------------ case generation
+KINDS = ["snv", "snv", "snv", "ins", "ins", "del", "del", "mnp", "insR", "delR", "cpx"]
+
+
+def draw_opts(rng):
+    """constructor options of ReadSetReader: mostly the defaults (what `whatshap phase` passes), sometimes other values"""
+    o = dict(DEFAULT_OPTS)
+    if rng.random() < 0.25:
+        o["mapq"] = rng.choice([0, 1, 30, 60, 61])          # --mapping-quality
+    if rng.random() < 0.2:
+        o["overhang"] = rng.choice([1, 3, 25])
+    if rng.random() < 0.25:
+        o["use_supp"] = True                                # --use-supplementary
+    if rng.random() < 0.15:
+        o["dup"] = True
+    return o
+
+
 def gen_case(rng, small=False):
+    opts = draw_opts(rng)
     L = rng.randint(40, 90) if small else rng.randint(60, 260)
     ref = G.rand_seq(rng, L, homopolymers=rng.random() < 0.25)
     margin = rng.choice([0, 1, 3, 12])
@@ -263,7 +281,7 @@ def gen_case(rng, small=False):
     gap_mode = rng.choice(["wide", "wide", "any", "tight"])
     pos = margin + rng.randint(0, 12)
     while len(events) < n_events and pos < L - margin - 6:
-        kind = rng.choice(["snv", "snv", "ins", "del", "mnp"])
+        kind = rng.choice(KINDS)
         v = G.make_variant(rng, ref, pos, kind, shiftable_ok=rng.random() < 0.1)
         if v is None or v[0] + len(v[1]) >= L:
             pos += 1
@@ -272,6 +290,12 @@ def gen_case(rng, small=False):
         span = len(v[1])
         gap = {"wide": rng.randint(25, 40), "any": rng.randint(0, 30), "tight": rng.randint(0, 3)}[gap_mode]
         pos = v[0] + span + gap
+        if G.kind_of(v) == "ins" and rng.random() < 0.3 and len(events) < n_events:
+            # another insertion 0-2 bases downstream of this one
+            w = G.make_variant(rng, ref, v[0] + span + rng.randint(0, 2), "ins")
+            if w is not None and w[0] + len(w[1]) < L - 1:
+                events.append(w)
+                pos = w[0] + len(w[1]) + gap
     # which events are listed (known to whatshap) and which are unrelated differences
     listed, carried_flags, ev_tags = [], [], []
     for v in events:
@@ -283,11 +307,20 @@ def gen_case(rng, small=False):
         p = rng.randint(0, L - 8)
         if p in used_pos:
             continue
-        v = G.make_variant(rng, ref, p, rng.choice(["snv", "snv", "ins", "del", "mnp"]), shiftable_ok=rng.random() < 0.1)
+        v = G.make_variant(rng, ref, p, rng.choice(KINDS), shiftable_ok=rng.random() < 0.1)
         if v is None:
             continue
         used_pos.add(p)
         listed_extra.append(v)
+    for v in events:
+        # a listed SNV / MNP that lies inside a carried deletion
+        if G.kind_of(v) == "del" and rng.random() < 0.35:
+            np_, nr, _ = G.normalize(*v)
+            p = np_ + rng.randrange(len(nr))
+            if p not in used_pos and p + 2 < L:
+                used_pos.add(p)
+                listed_extra.append(G.make_variant(rng, ref, p, rng.choice(["snv", "snv", "mnp"])))
+    listed_extra = [v for v in listed_extra if v is not None]
     allv = [(v, True) for v, l in zip(events, ev_tags) if l] + [(v, False) for v in listed_extra]
     allv.sort(key=lambda x: x[0][0])
     listed = [v for v, _ in allv]
@@ -322,7 +355,7 @@ def gen_case(rng, small=False):
                 c0 = max(c0, lo)
                 c1 = max(c1, min(len(cols), c0 + 8))
             skip = None
-            if rng.random() < 0.25 and c1 - c0 > 12:
+            if rng.random() < 0.35 and c1 - c0 > 12:
                 a = cols[rng.randint(c0 + 2, c1 - 6)][1]
                 skip = (a, a + rng.randint(1, 25))
                 if rng.random() < 0.5 and (events or listed):
@@ -356,31 +389,60 @@ def gen_case(rng, small=False):
                 a1["flag"], a2["flag"] = f1, f2
                 a1["mate_start"], a2["mate_start"] = a2["start"], a1["start"]
                 group.append(a2)
-        elif r < 0.42:   # an alignment that must be filtered
-            kind = rng.choice(["mapq", "dup", "secondary", "supp"])
+        elif r < 0.45:   # an alignment that is filtered under the default options
+            kind = "dup" if opts["dup"] and rng.random() < 0.6 else \
+                rng.choice(["mapq", "dup", "dup", "secondary", "supp", "unmapped"])
             if kind == "mapq":
-                a1["mapq"] = rng.choice([0, 5, 19])
+                a1["mapq"] = max(0, opts["mapq"] - rng.choice([1, 1, 15]))
             else:
-                a1["flag"] = {"dup": 0x400, "secondary": 0x100, "supp": 0x800}[kind]
-        elif r < 0.47:
-            a1["mapq"] = 20
+                a1["flag"] = {"dup": 0x400, "secondary": 0x100, "supp": 0x800, "unmapped": 0x4}[kind] | rng.choice([0, 0x10])
+        elif r < 0.53:   # mapping quality at / just above the threshold
+            a1["mapq"] = opts["mapq"] + rng.choice([0, 0, 1])
+        if rng.random() < (0.5 if opts["use_supp"] else 0.15) and not (a1.get("flag", 0) & 0x904):
+            # a supplementary alignment of the same read: same or other strand, near or far
+            a3 = one()
+            if a3 is not None:
+                a3["flag"] = 0x800 | (a1.get("flag", 0) & 0x10 if rng.random() < 0.6 else (~a1.get("flag", 0)) & 0x10)
+                group.append(a3)
         for a in group:
             a["nid"] = nid
-            qmode = rng.choice(["const", "rand"])
-            a["qarr"] = G.quals_array(rng, len(a["seq"]), qmode)
-            a["quals"] = list(a["qarr"])
+            qmode = rng.choice(["const", "rand", "rand", "none"])
+            a["qarr"] = None if qmode == "none" else G.quals_array(rng, len(a["seq"]), qmode)
+            a["quals"] = [] if qmode == "none" else list(a["qarr"])
             alns.append(a)
         nid += 1
     if not alns:
         return None
     # mostly the default supplementary distance threshold; sometimes one of the order of the read length
-    threshold = 100000 if rng.random() < 0.85 else rng.choice([5, 20, 60, 150])
+    threshold = 100000 if rng.random() < 0.8 else rng.choice([5, 20, 60, 150])
+    gaps = sorted({max(b["start"] - ref_end(a), a["start"] - ref_end(b), 0)
+                   for a in alns for b in alns if a is not b and a["nid"] == b["nid"]})
+    if gaps and rng.random() < 0.25:
+        threshold = max(0, rng.choice(gaps) + rng.choice([-1, 0, 0, 1]))    # at / just below / just above a real gap
+    extra = dict(opts=opts, names=rng.choice(list(NAME_SCHEMES)))
+    # several input files (MultiBamReader): every read name lives in one file; sometimes two files share a read name
+    names = sorted({a["nid"] for a in alns})
+    nfiles = min(len(names), rng.choice([1, 1, 1, 2, 3]))
+    if nfiles > 1:
+        where = {n: (k if k < nfiles else rng.randrange(nfiles)) for k, n in enumerate(rng.sample(names, len(names)))}
+        for a in alns:
+            a["file"] = where[a["nid"]]
+        if rng.random() < 0.4:
+            n0 = next(n for n in names if where[n] == 0)
+            n1 = next(n for n in names if where[n] == 1)
+            for a in alns:
+                if a["nid"] == n1:
+                    a["qname"] = n0            # same QNAME in two files: still two reads
+    extra["nfiles"] = nfiles
+    if rng.random() < 0.25:
+        # a second contig with copies of some alignments (same names, same read groups): must not be fetched
+        extra["decoy"] = dict(first=rng.random() < 0.5, alns=[dict(a) for a in rng.sample(alns, min(len(alns), 2))])
     if rng.random() < 0.7:
-        return [finish_case(ref, listed, carried, cols, alns, threshold)]
-    return multi_sample_drives(rng, ref, listed, carried, cols, alns, threshold)
+        return [finish_case(ref, listed, carried, cols, alns, threshold, extra=extra)]
+    return multi_sample_drives(rng, ref, listed, carried, cols, alns, threshold, extra)
 
 
-def multi_sample_drives(rng, ref, listed, carried, cols, alns, threshold):
+def multi_sample_drives(rng, ref, listed, carried, cols, alns, threshold, extra=None):
     """2-3 samples, each owning 1-3 read groups whose @RG lines are interleaved in random header order, optionally a read
     group without SM; every read name goes to one read group (mates stay together).  One drive per sample, one with
     sample=None (what the CLI does for --ignore-read-groups), sometimes one for a sample the header does not know;
@@ -410,12 +472,17 @@ def multi_sample_drives(rng, ref, listed, carried, cols, alns, threshold):
     drives = list(range(nsamples)) + [None]
     if rng.random() < 0.15:
         drives.append(nsamples + 3)
-    return [finish_case(ref, listed, carried, cols, [dict(a) for a in alns], threshold, header=header, sample=s) for s in drives]
+    if extra and extra.get("decoy"):
+        for d in extra["decoy"]["alns"]:
+            d["sm"], d["rg"] = name_rg[d["nid"]]
+    return [finish_case(ref, listed, carried, cols, [dict(a) for a in alns], threshold, header=header, sample=s, extra=extra)
+            for s in drives]
 
 
-def usable(a):
+def usable(a, o=DEFAULT_OPTS):
     f = a.get("flag", 0)
-    return not (f & 0x800 or f & 0x100 or f & 0x4 or f & 0x400 or a.get("mapq", 60) < 20)
+    return not ((f & 0x800 and not o["use_supp"]) or f & 0x100 or f & 0x4 or (f & 0x400 and not o["dup"])
+                or a.get("mapq", 60) < o["mapq"])
 
 
 def ref_end(a):
@@ -427,37 +494,55 @@ def in_sample(a, sample):
     return sample is None or (a.get("rg", 0) is not None and a.get("sm", 0) == sample)
 
 
-def finish_case(ref, listed, carried, cols, alns, threshold=100000, header=((0, 0),), sample=0):
-    """group-level ground truth.  A statement about (read name, variant) is only made when every usable alignment of
-    that name that touches the variant fully covers it (a partially covering mate may report anything)."""
-    alns = sorted(alns, key=lambda a: a["start"])          # stable, the same order synth.write_bam produces
+def finish_case(ref, listed, carried, cols, alns, threshold=100000, header=((0, 0),), sample=0, extra=None):
+    """group-level ground truth.  A statement about (read name, variant) is only made when every alignment of that name
+    that enters the group and touches the variant fully covers it (a partially covering mate may report anything).
+    Alignments entering a group: usable under the options, of the requested sample, within the distance threshold of
+    the last primary alignment of the name, and -- supplementary ones -- on its strand."""
+    extra = extra or {}
+    o = extra.get("opts", DEFAULT_OPTS)
+    alns = sorted(alns, key=lambda a: a["start"])          # stable: the order within each BAM file
     by_name = {}
     ncov = 0
     malformed = sample is not None and (not any(sm == sample for _, sm in header) or any(a.get("rg", 0) is None for a in alns))
     for a in alns:
-        if usable(a) and in_sample(a, sample) and not malformed:
-            a["t"], a["touch"] = G.truth_of(ref, cols, listed, carried, a)
+        if usable(a, o) and in_sample(a, sample) and not malformed:
+            a["t"], a["touch"] = G.truth_of(ref, cols, listed, carried, a, overhang=o["overhang"])
             ncov += len(a["t"])
             by_name.setdefault(a["nid"], []).append(a)
     keys = ("truth_all", "truth_clean", "truth_skip", "must", "must_skip", "must_pair")
     res = {k: {} for k in keys}
     for n, g in by_name.items():
-        prim = g[-1]
+        prims = [a for a in g if not a.get("flag", 0) & 0x800]
+        if not prims:
+            continue                                        # only supplementary alignments: no read at all
+        prim = prims[-1]
         prim_rev = bool(prim.get("flag", 0) & 0x10)         # strand of the last primary alignment of the group
+        strand_ok = lambda a: bool(a.get("flag", 0) & 0x10) == prim_rev
         # alignments further than the threshold from the primary one are excluded from the group by design
         near = [a for a in g if max(a["start"] - ref_end(prim), prim["start"] - ref_end(a), 0) <= threshold]
+        used = [a for a in near if strand_ok(a) or not a.get("flag", 0) & 0x800]
+        # Which alignment is "the primary" of a group depends on which primary alignments report at least one allele
+        # (an alignment without detected alleles never reaches the grouping; a group left with supplementary
+        # alignments only yields no read).  Claims about variants a supplementary alignment touches are therefore only
+        # made when every primary alignment of the name is certain to be present: it fully covers, with a clean
+        # window, at least one variant.
+        supps = [a for a in g if a.get("flag", 0) & 0x800]
+        supp_ok = all(any(w == "clean" for _, w in a["t"].values()) for a in prims)
         for idx, v in enumerate(listed):
-            touching = [a for a in g if idx in a["touch"]]
+            if supps and not supp_ok and any(idx in a["touch"] for a in supps):
+                continue
+            touching = [a for a in used if idx in a["touch"]]
             if not touching or not all(idx in a["t"] for a in touching):
                 continue
             allele = touching[0]["t"][idx][0]
             wins = {a["t"][idx][1] for a in touching}
-            res["truth_all"].setdefault(n, {})[v[0]] = allele
-            same = [a for a in touching if bool(a.get("flag", 0) & 0x10) == prim_rev and a in near]
+            if G.kind_of(v) != "cpx":                       # replacements are outside the reference-free clause
+                res["truth_all"].setdefault(n, {})[v[0]] = allele
+            same = [a for a in touching if strand_ok(a)]
             if wins == {"clean"}:
                 res["truth_clean"].setdefault(n, {})[v[0]] = allele
-                if [a for a in touching if a in near]:
-                    res["must_pair"].setdefault(n, set()).add(v[0])
+                res["must_pair"].setdefault(n, set()).add(v[0])
                 if same:
                     res["must"].setdefault(n, set()).add(v[0])
             elif wins <= {"clean", "skip"}:
@@ -465,7 +550,7 @@ def finish_case(ref, listed, carried, cols, alns, threshold=100000, header=((0, 
                 if same:
                     res["must_skip"].setdefault(n, set()).add(v[0])
     case = dict(ref=ref, listed=listed, carried=sorted(carried), alns=alns, ncov=ncov, threshold=threshold,
-                header=[tuple(h) for h in header], sample=sample, malformed=malformed)
+                header=[tuple(h) for h in header], sample=sample, malformed=malformed, **extra)
     for k in keys:
         case[k] = [(n, sorted(t.items()) if isinstance(t, dict) else sorted(t)) for n, t in sorted(res[k].items())]
     return case
@@ -474,27 +559,40 @@ def finish_case(ref, listed, carried, cols, alns, threshold=100000, header=((0, 
 KEYS = ("truth_all", "truth_clean", "truth_skip", "must", "must_skip", "must_pair")
 
 
+def aln_json(a):
+    return dict(nid=a["nid"], start=a["start"], cigar=[list(c) for c in a["cigar"]], seq=a["seq"],
+                quals=a["quals"], flag=a.get("flag", 0), mapq=a.get("mapq", 60), rg=a.get("rg", 0), sm=a.get("sm", 0),
+                file=a.get("file", 0), qname=a.get("qname", a["nid"]),
+                **({"mate_start": a["mate_start"]} if "mate_start" in a else {}))
+
+
+def aln_from_json(a):
+    import array
+    a = dict(a)
+    a["cigar"] = [tuple(c) for c in a["cigar"]]
+    a["qarr"] = array.array("B", a["quals"]) if a["quals"] else None
+    return a
+
+
 def case_json(case):
     d = dict(ref=case["ref"], listed=[list(v) for v in case["listed"]], threshold=case.get("threshold", 100000),
              header=[list(h) for h in case.get("header", [(0, 0)])], sample=case.get("sample", 0),
-             alns=[dict(nid=a["nid"], start=a["start"], cigar=[list(c) for c in a["cigar"]], seq=a["seq"],
-                        quals=a["quals"], flag=a.get("flag", 0), mapq=a.get("mapq", 60), rg=a.get("rg", 0), sm=a.get("sm", 0),
-                        **({"mate_start": a["mate_start"]} if "mate_start" in a else {})) for a in case["alns"]])
+             opts=opts_of(case), names=case.get("names", "plain"), nfiles=case.get("nfiles", 1),
+             alns=[aln_json(a) for a in case["alns"]])
+    if case.get("decoy"):
+        d["decoy"] = dict(first=case["decoy"]["first"], alns=[aln_json(a) for a in case["decoy"]["alns"]])
     for k in KEYS:
         d[k] = [[n, [list(x) if isinstance(x, tuple) else x for x in t]] for n, t in case[k]]
     return d
 
 
 def case_from_json(d):
-    import array
-    alns = []
-    for a in d["alns"]:
-        a = dict(a)
-        a["cigar"] = [tuple(c) for c in a["cigar"]]
-        a["qarr"] = array.array("B", a["quals"])
-        alns.append(a)
+    alns = [aln_from_json(a) for a in d["alns"]]
     case = dict(ref=d["ref"], listed=[tuple(v) for v in d["listed"]], alns=alns, ncov=1, threshold=d.get("threshold", 100000),
-                header=[tuple(h) for h in d.get("header", [[0, 0]])], sample=d.get("sample", 0))
+                header=[tuple(h) for h in d.get("header", [[0, 0]])], sample=d.get("sample", 0),
+                opts=d.get("opts", DEFAULT_OPTS), names=d.get("names", "plain"), nfiles=d.get("nfiles", 1))
+    if d.get("decoy"):
+        case["decoy"] = dict(first=d["decoy"]["first"], alns=[aln_from_json(a) for a in d["decoy"]["alns"]])
     for k in KEYS:
         case[k] = [(n, [tuple(x) if isinstance(x, list) else x for x in t]) for n, t in d[k]]
     return case
@@ -563,6 +661,109 @@ GENERIC = {"L1wrong": "detect:wrong-allele", "L1wrong_skip": "detect:wrong-allel
            "L1missing_pair": "realign:allele-not-found", "L1crash": "detect:assertion-error"}
 
 
+def tally_dimensions(ctx, case):
+    """input-distribution counters for the coverage audit (one call per case, reference-free pass only)"""
+    o = opts_of(case)
+    t = ctx.tally
+    t(f"opt.mapq_threshold.{o['mapq']}")
+    t(f"opt.overhang.{o['overhang']}")
+    t(f"opt.use_supplementary.{o['use_supp']}")
+    t(f"opt.duplicates.{o['dup']}")
+    t(f"names.{case.get('names', 'plain')}")
+    t(f"bam_files.{case.get('nfiles', 1)}")
+    thr = case.get("threshold", 100000)
+    for n in {a["nid"] for a in case["alns"]}:
+        g = [a for a in case["alns"] if a["nid"] == n]
+        for a in g:
+            for b in g:
+                if a is not b and a["start"] <= b["start"]:
+                    gap = max(b["start"] - ref_end(a), 0)
+                    if abs(gap - thr) <= 1:
+                        t("distance_gap_vs_threshold." + ("below" if gap < thr else "at" if gap == thr else "above"))
+    if any(not a["quals"] for a in case["alns"]):
+        t("alignment_without_base_qualities")
+    if len({(a.get('qname', a['nid'])) for a in case['alns']}) < len({a['nid'] for a in case['alns']}):
+        t("same_qname_in_two_files")
+    if case.get("decoy"):
+        t("decoy_contig." + ("before" if case["decoy"]["first"] else "after"))
+    t("n_listed." + ("0" if not case["listed"] else "1" if len(case["listed"]) == 1 else "2+"))
+    t("n_alignments." + ("1" if len(case["alns"]) == 1 else "2-3" if len(case["alns"]) <= 3 else "4+"))
+    if len(case.get("header", [0])) > 1:
+        per = {}
+        for g, sm in case["header"]:
+            per[sm] = per.get(sm, 0) + 1
+        for sm, k in per.items():
+            t("read_groups_per_sample." + ("noSM" if sm is None else str(k)))
+        # are the read groups of the requested sample adjacent in the header?
+        smp = case.get("sample", 0)
+        idx = [i for i, (g, sm) in enumerate(case["header"]) if sm == smp]
+        if len(idx) > 1:
+            t("requested_sample_groups." + ("adjacent" if idx[-1] - idx[0] == len(idx) - 1 else "interleaved"))
+    names = {}
+    for a in case["alns"]:
+        names.setdefault(a["nid"], []).append(a)
+        f = a.get("flag", 0)
+        thr = o["mapq"]
+        mq = a.get("mapq", 60)
+        if mq in (thr - 1, thr, thr + 1):
+            t("mapq_vs_threshold." + ("below" if mq < thr else "at" if mq == thr else "above"))
+        for bit, nm in ((0x400, "duplicate"), (0x100, "secondary"), (0x800, "supplementary"), (0x4, "unmapped")):
+            if f & bit:
+                t("flag." + nm + (".duplicates=True" if bit == 0x400 and o["dup"] else "")
+                  + (".use_supplementary=True" if bit == 0x800 and o["use_supp"] else ""))
+        ops = [op for op, _ in a["cigar"] if op not in "SH"]
+        if len(a["cigar"]) > len(ops):
+            t("clipped_alignment")
+        first, last = a["start"], ref_end(a) - 1
+        # reference intervals of D / N operations and positions of I operations
+        rp, dels, skips, inss = a["start"], [], [], []
+        for op, n in a["cigar"]:
+            if op == "D":
+                dels.append((rp, rp + n))
+            elif op == "N":
+                skips.append((rp, rp + n))
+            elif op == "I":
+                inss.append(rp)
+            if op in "MDN=X":
+                rp += n
+        for idx, v in enumerate(case["listed"]):
+            p, e = v[0], v[0] + len(v[1]) - 1
+            if e < first or p > last:
+                if p == last + 1 or e == first - 1:
+                    t("variant.adjacent_outside_alignment")
+                continue
+            kind = G.kind_of(v) + ("R" if G.is_right_anchored(v) else "")
+            if p < first or e > last:
+                t("variant.straddles_alignment_end")
+                continue
+            if p == first:
+                t("variant.at_first_aligned_base." + kind)
+            if e == last:
+                t("variant.at_last_aligned_base." + kind)
+            if 0 < p - first < o["overhang"] or 0 < last - e < o["overhang"]:
+                t("variant.window_truncated_by_alignment_end")
+            if any(x <= p < y and (x, y) != (p + 1, e + 1) for x, y in dels) and G.kind_of(v) in ("snv", "mnp"):
+                t("variant.snv_or_mnp_inside_deletion_op")
+            if any(x <= p < y for x, y in skips):
+                t("variant.inside_reference_skip")
+            if any(abs(x - p) <= 1 or abs(y - 1 - e) <= 1 or abs(y - p) <= 1 or abs(x - 1 - e) <= 1 for x, y in skips):
+                t("variant.next_to_reference_skip")
+            if any(abs(x - p) <= 1 for x in inss) and G.kind_of(v) != "ins":
+                t("variant.non_insertion_within_1_of_insertion_op")
+            if any(0 < x - (p + 1) < 5 for x in inss) and G.kind_of(v) == "ins":
+                t("variant.insertion_shortly_before_another_insertion_op")
+    for n, g in names.items():
+        prim = [a for a in g if not a.get("flag", 0) & 0x900]
+        if len(prim) == 2:
+            r = ["R" if a.get("flag", 0) & 0x10 else "F" for a in prim]
+            t("pair_orientation." + "".join(r))
+            if ref_end(prim[0]) > prim[1]["start"]:
+                t("pair.mates_overlap")
+        if any(a.get("flag", 0) & 0x800 for a in g) and prim:
+            same = any(bool(a.get("flag", 0) & 0x10) == bool(prim[-1].get("flag", 0) & 0x10) for a in g if a.get("flag", 0) & 0x800)
+            t("supplementary_with_primary." + ("same_strand" if same else "other_strand"))
+
+
 def check_cases(ctx, wd, cases, label, perturb=None):
     terms, raw = [], []
     for case in cases:
@@ -583,12 +784,13 @@ def check_cases(ctx, wd, cases, label, perturb=None):
                     ctx.tally("cigar_op." + o)
                 if "mate_start" in a:
                     ctx.tally("mate_alignments")
-                if not usable(a):
+                if not usable(a, opts_of(case)):
                     ctx.tally("filtered_alignments")
             for v in case["listed"]:
                 ctx.tally("listed." + G.kind_of(v))
             ctx.tally("covered_variant_instances", case["ncov"])
             ctx.tally(f"distance_threshold.{case.get('threshold', 100000)}")
+            tally_dimensions(ctx, case)
             ctx.tally("drive." + ("single-read-group" if len(case.get("header", [0])) == 1 else
                                   "malformed" if case.get("malformed") else
                                   "sample=None" if case.get("sample", 0) is None else "sample-of-interleaved-read-groups"))
@@ -606,7 +808,8 @@ def describe(case, refmode, out):
             f"truth={case['truth_clean'] if refmode else case['truth_all']} truth_skip={case['truth_skip'] if refmode else []} "
             f"must={case['must_pair'] if refmode else []} distance_threshold={case.get('threshold', 100000)} "
             f"read_groups(id,sample)={case.get('header', [(0, 0)])} requested_sample={case.get('sample', 0)} "
-            f"alignment_RG={[a.get('rg', 0) for a in case['alns']]} detected={out}")
+            f"alignment_RG={[a.get('rg', 0) for a in case['alns']]} options={opts_of(case)} files={case.get('nfiles', 1)} "
+            f"alignment_file={[a.get('file', 0) for a in case['alns']]} detected={out}")
 
 
 def cig_str(c):
@@ -686,7 +889,7 @@ def run(ctx, perturb=None):
             cand = []
             for c, m, o in l2[:40]:
                 for a in c["alns"]:
-                    if usable(a) and in_sample(a, c.get("sample", 0)) and not c.get("malformed"):
+                    if usable(a, opts_of(c)) and in_sample(a, c.get("sample", 0)) and not c.get("malformed"):
                         cand.append(restrict_case(c, [a]))
             more = []
             while len(more) < ctx.n(300, 1500):
@@ -712,7 +915,7 @@ def restrict_case(case, alns):
     c = dict(case)
     c["alns"] = alns
     for k in KEYS:
-        c[k] = [(n, t) for n, t in case[k] if n in names and len([a for a in case["alns"] if a["nid"] == n and usable(a) and in_sample(a, case.get("sample", 0))]) ==
+        c[k] = [(n, t) for n, t in case[k] if n in names and len([a for a in case["alns"] if a["nid"] == n and usable(a, opts_of(case)) and in_sample(a, case.get("sample", 0))]) ==
                 len([a for a in alns if a["nid"] == n])]
     return c
 
